@@ -32,6 +32,11 @@ def probe_histories():
         {"name": "units-grow-shrink", "steps": [("units", 4), ("save",), ("remove_units", 3), ("save",)]},
         {"name": "variables", "steps": [("variables", 3), ("save",), ("trigger", 1, 1, 0), ("save",)]},
         {"name": "aa-effect-without-pair", "steps": [("aa_effect",), ("save",)]},
+        # a save that fails half-way (an effect message that is no string), the mistake corrected, a second save: the second
+        # file has to be well-formed although part of the first commit had already happened
+        {"name": "failed-save-then-corrected", "steps": [("trigger", 1, 1, 1), ("break_message",), ("failing_save",), ("fix_message",), ("save",)]},
+        {"name": "grow-failed-save-corrected", "steps": [("trigger", 2, 1, 0), ("save",), ("trigger", 1, 2, 0), ("break_message",), ("failing_save",),
+                                                          ("fix_message",), ("save",)]},
     ]
 
 
@@ -156,6 +161,15 @@ def worker(version, args):
                     elif stp[0] == "variables":
                         for i in range(stp[1]):
                             scn.trigger_manager.add_variable(f"v{i}", i)
+                    elif stp[0] == "break_message":
+                        scn.trigger_manager.triggers[-1].effects[-1].message = 12345
+                    elif stp[0] == "fix_message":
+                        scn.trigger_manager.triggers[-1].effects[-1].message = "fixed"
+                    elif stp[0] == "failing_save":
+                        fnx = os.path.join(tmp, f"probe_{pr['name']}_fail.aoe2scenario")
+                        common.outcome(scn.write_to_file, fnx)          # expected to raise; whatever it did, the next save counts
+                        if os.path.exists(fnx):
+                            os.remove(fnx)
                     elif stp[0] == "save":
                         fn = os.path.join(tmp, f"probe_{pr['name']}_{nsave}.aoe2scenario")
                         st, e = common.outcome(scn.write_to_file, fn)
